@@ -124,6 +124,19 @@ static void ob_rollback(H<T>& h)
         full = A::run(w, rest, re, always_true<typename A::chk>());
         h.check("C15|rollback.resumed_run_equals_the_uninterrupted_one", texts_identical<T>(h, text_full, ser(full)));
     }
+    // two successive rollbacks on the same object equal the single rollback to the smaller iteration
+    for (std::size_t k1 = 0; k1 <= n; ++k1)
+    {
+        for (std::size_t k2 = 0; k2 <= k1; ++k2)
+        {
+            typename A::chk twice = full, once = full;
+            bool threw = false;
+            try { twice.rollback(k1); twice.rollback(k2); once.rollback(k2); }
+            catch (std::out_of_range const&) { threw = true; }
+            h.check("C15|rollback.successive_rollbacks_equal_the_single_rollback",
+                threw ? h.truth(false) : texts_identical<T>(h, ser(once), ser(twice)));
+        }
+    }
     for (std::size_t k = 0; k <= n + 1; ++k)
     {
         typename A::chk c = full;
